@@ -1,10 +1,46 @@
 pub mod ranges;
+pub mod cfi;
+pub mod win;
+pub mod sym;
+pub mod symb;
+pub mod once;
+pub mod paths;
+pub mod regs;
+pub mod bitflip;
+pub mod walk;
+pub mod chain;
+pub mod read;
+pub mod roundtrip;
+pub mod index;
+pub mod json;
+pub mod cache;
+pub mod cli;
+pub mod det;
+pub mod process;
 
 use crate::common::Engine;
 
 pub fn by_name(name: &str) -> Option<Box<dyn Engine>> {
     match name {
         "ranges" => Some(Box::new(ranges::Ranges)),
+        "cfi" => Some(Box::new(cfi::Cfi)),
+        "win" => Some(Box::new(win::Win)),
+        "sym" => Some(Box::new(sym::Sym)),
+        "symb" => Some(Box::new(symb::Symb)),
+        "once" => Some(Box::new(once::Once)),
+        "paths" => Some(Box::new(paths::Paths)),
+        "regs" => Some(Box::new(regs::Regs)),
+        "bitflip" => Some(Box::new(bitflip::Bitflip)),
+        "walk" => Some(Box::new(walk::Walk)),
+        "chain" => Some(Box::new(chain::Chain)),
+        "read" => Some(Box::new(read::Read)),
+        "roundtrip" => Some(Box::new(roundtrip::Roundtrip)),
+        "index" => Some(Box::new(index::Index)),
+        "json" => Some(Box::new(json::Json)),
+        "cache" => Some(Box::new(cache::Cache)),
+        "cli" => Some(Box::new(cli::Cli)),
+        "det" => Some(Box::new(det::Det)),
+        "process" => Some(Box::new(process::Process)),
         _ => None,
     }
 }
